@@ -45,6 +45,18 @@ def _native_or(interp, st, f, args, kwargs, node, fallback):
 
 # ---------------------------------------------------------------------------------------------- len
 
+def known_length(st, term):
+    """a concrete length asserted in the path condition as `Length(term) == k` (syntactic scan)"""
+    for p in st.pc:
+        if z3.is_eq(p) and p.num_args() == 2:
+            a, b = p.arg(0), p.arg(1)
+            if z3.is_int_value(b) and z3.is_app(a) and a.decl().kind() == z3.Z3_OP_SEQ_LENGTH and a.arg(0).eq(term):
+                return b.as_long()
+            if z3.is_int_value(a) and z3.is_app(b) and b.decl().kind() == z3.Z3_OP_SEQ_LENGTH and b.arg(0).eq(term):
+                return a.as_long()
+    return None
+
+
 def py_len(interp, st, v, node=None):
     """-> yields (st, VInt | Raise)"""
     from .chars import VChars
@@ -55,7 +67,11 @@ def py_len(interp, st, v, node=None):
     elif isinstance(v, VChars):
         yield st, VInt(len(v.codes))
     elif isinstance(v, (VStr, VBytes)):
-        yield st, (VInt(len(v.v)) if v.concrete else mk_int(z3.Length(v.v)))
+        if v.concrete:
+            yield st, VInt(len(v.v))
+        else:
+            k = known_length(st, v.v)
+            yield st, (VInt(k) if k is not None else mk_int(z3.Length(v.v)))
     elif isinstance(v, VTuple):
         yield st, VInt(len(v.items))
     elif isinstance(v, VRef):
@@ -106,6 +122,18 @@ def py_int(interp, st, v, base=None, node=None):
     digits."""
     bm.note(interp, 'int')
     from .chars import VChars, chars_to_int
+    from .segs import VSegs, dec_value, to_vbytes
+    if isinstance(v, VSegs):
+        if base is None and len(v.segs) == 1 and dec_value(v.segs[0]) is not None:
+            yield st, mk_int(dec_value(v.segs[0]))      # int(str(n)) == n
+            return
+        v = to_vbytes(v)
+    if isinstance(v, VBytes) and not v.concrete and base is None:
+        from .segs import _DEC
+        hit = _DEC.get(v.v.get_id())
+        if hit is not None and hit[0].eq(v.v):
+            yield st, mk_int(hit[1])
+            return
     if isinstance(v, VChars):
         if base is not None:
             raise Unsupported("int(chars, base)", node)
@@ -312,7 +340,12 @@ def t_bytes(interp, st, args, kwargs, node=None):
         if not parts:
             yield s1, VBytes(b'')
             continue
-        val = mk_like(VBytes(b''), z3.Concat(*parts) if len(parts) > 1 else parts[0])
+        from .segs import from_segs
+        segs = []
+        for it in items:
+            t = as_int_term(it)
+            segs.append(('lit', bytes([t])) if isinstance(t, int) and 0 <= t < 256 else ('sym', z3.StrFromCode(iterm(t)), 1))
+        val = from_segs(segs)
         yield from interp.alts(s1, [(ok, val), (neg(ok), exc(ValueError, "bytes must be in range(0, 256)"))])
 
 
@@ -867,6 +900,37 @@ def sort_items(interp, st, items, key, reverse, node):
         yield from insert(0, s1, [])
 
 
+import functools as _functools
+
+
+@model(_functools.reduce)
+def m_reduce(interp, st, args, kwargs, node=None):
+    f, seq = args[0], args[1]
+    for s1, items in interp.iter_concrete(st, seq, node):
+        if isinstance(items, Raise):
+            yield s1, items
+            continue
+        items = list(items)
+        if len(args) > 2:
+            acc0 = args[2]
+        elif items:
+            acc0 = items.pop(0)
+        else:
+            yield s1, exc(TypeError, "reduce() of empty iterable with no initial value")
+            continue
+
+        def go(i, st, acc):
+            if i == len(items):
+                yield st, acc
+                return
+            for s2, r in interp.call(st, f, [acc, items[i]], {}, node):
+                if isinstance(r, Raise):
+                    yield s2, r
+                else:
+                    yield from go(i + 1, s2, r)
+        yield from go(0, s1, acc0)
+
+
 @model(divmod)
 def m_divmod(interp, st, args, kwargs, node=None):
     a, b = args
@@ -999,6 +1063,12 @@ def m_from_bytes(interp, st, args, kwargs, node=None):
     if v.concrete and order.concrete and signed.concrete:
         yield st, VInt(int.from_bytes(v.v, unlift(order), signed=unlift(signed)))
         return
+    tt = v.term()
+    if z3.is_app(tt) and tt.decl().kind() == z3.Z3_OP_STR_FROM_CODE:
+        # one byte produced from a code in 0..255 (guarded where it was built): its value is the code
+        val = tt.arg(0)
+        yield st, (mk_int(z3.If(val >= 128, val - 256, val)) if unlift(signed) else mk_int(val))
+        return
     val = int_from_bytes(v.term(), unlift(order))
     if unlift(signed):
         n = z3.Length(v.term())
@@ -1034,6 +1104,15 @@ def call_method(interp, st, recv, name, args, kwargs, node=None):
         from .stdmodels import hash_method
         yield from hash_method(interp, st, recv, st.heap[recv.addr], name, args, kwargs, node)
         return
+    if isinstance(recv, VSegs) and name == 'find' and args and args[0].concrete and isinstance(args[0], VBytes):
+        from .segs import segs_find
+        start = 0
+        if len(args) > 1:
+            start = bm.idx_int(args[1])
+        r = segs_find(interp, st, recv, args[0].v, start) if len(args) <= 2 and start is not None else None
+        if r is not None:
+            yield st, r
+            return
     if isinstance(recv, VSegs):
         recv = to_vbytes(recv)
     args = [to_vbytes(a) if isinstance(a, VSegs) else a for a in args]
@@ -1356,6 +1435,21 @@ def str_method(interp, st, recv, name, args, kwargs, node):
             ls = z3.Length(sep.term())
             found = VTuple([mk_like(recv, z3.SubString(t, 0, i)), sep, mk_like(recv, z3.SubString(t, i + ls, n - i - ls))])
             notf = VTuple([recv, mk_like(recv, mk_str('')), mk_like(recv, mk_str(''))])
+            yield from interp.alts(st, [(i >= 0, found), (i < 0, notf)])
+            return
+        if name == 'rpartition' and hasattr(z3, 'LastIndexOf'):
+            sep = args[0]
+            if not same(sep):
+                yield st, exc(TypeError, "must be str/bytes")
+                return
+            if sep.concrete and len(sep.v) == 0:
+                yield st, exc(ValueError, "empty separator")
+                return
+            i = z3.LastIndexOf(t, sep.term())
+            ls = z3.Length(sep.term())
+            empty = mk_like(recv, mk_str(''))
+            found = VTuple([mk_like(recv, z3.SubString(t, 0, i)), sep, mk_like(recv, z3.SubString(t, i + ls, n - i - ls))])
+            notf = VTuple([empty, empty, recv])
             yield from interp.alts(st, [(i >= 0, found), (i < 0, notf)])
             return
         raise Unsupported(f"{name} on symbolic string", node)
